@@ -655,8 +655,12 @@ impl CanonicalizeContext {
 		}
 		if element_name == "mmultiscripts" {
 			// base followed by pairs of scripts, optionally mprescripts followed by more pairs
-			let has_prescripts = mathml.children().iter()
-					.any(|&child| child.element().is_some() && name(&as_element(child)) == "mprescripts");
+			let n_prescripts = mathml.children().iter()
+					.filter(|&&child| child.element().is_some() && name(&as_element(child)) == "mprescripts").count();
+			if n_prescripts > 1 {
+				bail!("{} has more than one mprescripts child:\n{}", element_name, mml_to_string(&mathml));
+			}
+			let has_prescripts = n_prescripts == 1;
 			if has_prescripts ^ (n_children % 2 == 0) {
 				bail!("{} has the wrong number of children:\n{}", element_name, mml_to_string(&mathml));
 			}
@@ -1474,7 +1478,7 @@ impl CanonicalizeContext {
 				if let Some((i,_)) = children.iter().enumerate()
 					.find(|(_,&el)| name(&as_element(el)) == "mprescripts") { i } else { n };
 			let has_misplaced_mprescripts = i_mprescripts & 1 == 0;  // should be first, third, ... child
-			let mut has_proper_number_of_children = if i_mprescripts == n { n & 1 == 0} else { n & 1 != 0 }; // should be odd else even #
+			let has_proper_number_of_children = if i_mprescripts == n { n & 1 == 0} else { n & 1 != 0 }; // should be odd else even #
 			if has_misplaced_mprescripts || !has_proper_number_of_children || has_none_none_script_pair(&children) {
 				// need to reset the children
 				let mut new_children = Vec::with_capacity(n+2); // adjusting position of mprescripts might add two children
@@ -1485,20 +1489,21 @@ impl CanonicalizeContext {
 					let child = as_element(children[i]);
 					let child_name = name(&child);
 					if child_name == "mprescripts" {
-						if has_misplaced_mprescripts {
-							let mtext = CanonicalizeContext::create_empty_element(&mathml.document());
-							new_children.push(ChildOfElement::Element(mtext));
-							has_proper_number_of_children = !has_proper_number_of_children;
-						}
 						new_children.push(children[i]);
 						i += 1;
 					} else if i+1 < n && child_name == "none" && name(&as_element(children[i+1])) == "none" {
 						i += 2;		// found none, none pair
-					} else {
+					} else if i+1 < n && name(&as_element(children[i+1])) != "mprescripts" {
 						// copy pair
 						new_children.push(children[i]);
 						new_children.push(children[i+1]);
 						i += 2;
+					} else {
+						// a script without a partner (the <mprescripts/> or the end follows): pair it with an empty element
+						let mtext = CanonicalizeContext::create_empty_element(&mathml.document());
+						new_children.push(children[i]);
+						new_children.push(ChildOfElement::Element(mtext));
+						i += 1;
 					}
 				}
 				if new_children.len() == 1 {
